@@ -291,6 +291,26 @@ def gen_lang(rng: random.Random) -> Lang:
             body = None
         if body is None:
             continue
+        # subtyping between declaration and definition: declare a narrower
+        # parameter / wider result than the body was generated for (sound), or
+        # the other way round (unsound where the body needs it: validate()
+        # should then reject the definition)
+        r = rng.random()
+        if r < 0.3:
+            sound = r < 0.2
+            pos = [j for j, p_ in enumerate(ps) if p_[0] == 'b'] + ([-1] if res[0] == 'b' else [])
+            rng.shuffle(pos)
+            for j in pos:
+                cur = res[1] if j < 0 else ps[j][1]
+                up = (j < 0) == sound        # move this position up the hierarchy?
+                cands = [i for i in range(nbase) if i != cur and
+                         (_sub(parents, cur, i) if up else _sub(parents, i, cur))]
+                if cands:
+                    if j < 0:
+                        res = ('b', rng.choice(cands))
+                    else:
+                        ps[j] = ('b', rng.choice(cands))
+                    break
         lang.ops.append({"name": f"d{di}", "nvars": 0, "type": fn(ps, res), "body": (k, body)})
         if not small_normal_form(lang, ('op', len(lang.ops) - 1), max_nodes=300):
             lang.ops.pop()      # thrice (thrice thrice) ... : the definition alone is astronomic
@@ -544,6 +564,34 @@ class Impl:
         elif isinstance(e, E.Abstraction):
             self.defects(e.body, out)
 
+    def ill_typed_nodes(self, e, out, stats):
+        """every application in the expansion must itself be well-typed: the
+        argument's type fits the function's parameter type (decided when both
+        are concrete; counted otherwise)"""
+        E, T = self.E, self.T
+        while isinstance(e, E.Variable) and e.bound is not None:
+            e = e.bound
+        if isinstance(e, E.Application):
+            f, x = e.f, e.x
+            while isinstance(f, E.Variable) and f.bound is not None:
+                f = f.bound
+            while isinstance(x, E.Variable) and x.bound is not None:
+                x = x.bound
+            ft, xt = self.snap(f.type), self.snap(x.type)
+            if ft[0] == 'op' and ft[1] is T.Function and self.ground(ft[2][0]) and self.ground(xt):
+                stats["application_nodes_checked"] = stats.get("application_nodes_checked", 0) + 1
+                if not self.more_specific(xt, ft[2][0])[0]:
+                    out.append(f"ill-typed application in the expansion: argument of type {self.snap_str(xt)} "
+                               f"for a parameter of type {self.snap_str(ft[2][0])}")
+            elif ft[0] == 'op' and ft[1] is not T.Function and ft[1] is not T.Top:
+                out.append(f"application of a non-function of type {self.snap_str(ft)} in the expansion")
+            else:
+                stats["application_nodes_with_variables"] = stats.get("application_nodes_with_variables", 0) + 1
+            self.ill_typed_nodes(e.f, out, stats)
+            self.ill_typed_nodes(e.x, out, stats)
+        elif isinstance(e, E.Abstraction):
+            self.ill_typed_nodes(e.body, out, stats)
+
     # --- types -------------------------------------------------------------
     def snap(self, t):
         """immutable picture of a type instance as it is now"""
@@ -682,6 +730,14 @@ STD_LANG = Lang(2, {1: 0}, [0, 1], [
     {"name": "quad", "nvars": 0, "type": fn([fn([('b', 0)], ('b', 0)), ('b', 0)], ('b', 0)),
      "body": (2, app(('op', 9), app(('op', 9), P(0)), P(1)))},
     {"name": "pid", "nvars": 1, "type": fn([a_], a_), "body": None},
+    # subtyping between declaration and definition (B1 <= B0): `narrow` declares a
+    # wider result than its body has (sound); `wide` declares a wider parameter
+    # than its body accepts (unsound: validate() must reject it, and then it is
+    # not used)
+    {"name": "low", "nvars": 0, "type": fn([('b', 1)], ('b', 1)), "body": None},
+    {"name": "narrow", "nvars": 0, "type": fn([('b', 1)], ('b', 0)), "body": (1, app(('op', 18), P(0)))},
+    {"name": "wide", "nvars": 0, "type": fn([('b', 0)], ('b', 1)), "body": (1, app(('op', 18), P(0)))},
+    {"name": "wide2", "nvars": 0, "type": fn([('b', 0)], ('b', 0)), "body": (0, ('op', 18))},
 ])
 _N = {o["name"]: ('op', i) for i, o in enumerate(STD_LANG.ops)}
 _one, _sub1 = ('src', 0), ('src', 1)
@@ -728,6 +784,9 @@ def corpus_exprs():
         app(n["twice"], app(n["compose"], n["add1"], n["add1"]), _one),
         app(n["twice"], app(n["flip"], n["add"], _one), _sub1),
         app(n["thrice"], n["twice"], n["add1"], _one),
+        app(n["narrow"], _sub1), n["narrow"], app(n["f"], app(n["narrow"], _sub1)),
+        app(n["compose"], n["f"], n["narrow"], _sub1), app(n["apply"], n["narrow"]),
+        app(n["wide"], _one), n["wide"], app(n["wide2"], _one), n["wide2"], app(n["twice"], n["wide2"], _one),
     ]
 
 
@@ -884,6 +943,12 @@ class Runner:
             bad.append("result mentions a variable bound nowhere / a source that is not in the language")
         if bad:
             self.viol(f"notnormal_{li}_{ei}", dict(payload, kind="oracle", what="; ".join(sorted(set(bad)))),
+                has_input=True)
+        # the expansion is itself well-typed at every application
+        bad = []
+        impl.ill_typed_nodes(p, bad, self.dist)
+        if bad:
+            self.viol(f"illtyped_{li}_{ei}", dict(payload, kind="oracle", what="; ".join(sorted(set(bad)))),
                 has_input=True)
         # (3) same or more specific type
         ok, why = impl.more_specific(after, before)
